@@ -7,7 +7,7 @@ ALLOWED_AXIOMS = set()
 TRUSTED_BASE = [
     "Coq 8.16.1 kernel (coqc); vm_compute not used in C13 proofs; no native_compute",
     "Print Assumptions: Closed under the global context for every C13 theorem",
-    "hand-written model theories/Pareto.v (mask-and-compact loop as (prefix, rest) state; naive double loop) tied to vopy/order.py by this correspondence check, not by translation",
+    "model theories/Pareto.v (mask-and-compact loop as (prefix, rest) state; naive double loop); the numpy loops are regenerated literally by translator/paretogen.py (Gen_pareto.v, array combinators of LoopPareto.v) and proved equal to the model (ParetoRefine.v); both the model and the extracted regenerated loops are run against the implementation by this check",
     "extraction with ExtrOcamlBasic only; coq/extract/driver.ml (case parser / printer); ocamlfind ocamlopt 4.13.1",
     "numpy array handling in the implementation (modelled, not verified); float arithmetic is exact on the small dyadic inputs used",
 ]
@@ -99,8 +99,14 @@ def evaluate(ctx, cases):
                   f"pareto_ok {w} {p} {common.enc(fo)}", f"pareto_once {w} {p} {common.enc(fo)}",
                   f"pareto_ok {w} {p} {common.enc(no)}", f"pareto_all {w} {p} {common.enc(no)}"]
     out = ctx.model(lines)
+    # the regenerated array-level loops (Gen_pareto.v), extracted, on the same inputs (translator validation)
+    glines = []
+    for kind, cn, pts in cases:
+        w, p = common.enc(allc[cn][0]), common.enc(pts)
+        glines += [f"gen_pareto_fast {w} {p}", f"gen_pareto_naive {w} {p}"]
+    gout = ctx.genmodel(glines)
     viol, mism = [], []
-    stats = {"fast_mismatch": 0, "naive_mismatch": 0}
+    stats = {"fast_mismatch": 0, "naive_mismatch": 0, "regenerated_loop_runs": 0 if gout is None else len(glines), "regenerated_loop_mismatch": 0}
     for k, (kind, cn, pts) in enumerate(cases):
         W, pointed = allc[cn]
         mf, mn, okf, oncef, okn, alln = [common.dec(x) for x in out[6 * k:6 * k + 6]]
@@ -118,6 +124,11 @@ def evaluate(ctx, cases):
         if nv != mn:
             stats["naive_mismatch"] += 1
             mism.append(dict(rep, routine="naive", impl=nv, model=mn))
+        if gout is not None:
+            gf, gn = common.dec(gout[2 * k]), common.dec(gout[2 * k + 1])
+            if (isinstance(f, list) and gf != f) or (isinstance(nv, list) and gn != nv):
+                stats["regenerated_loop_mismatch"] += 1
+                mism.append(dict(rep, routine="regenerated", impl=[f, nv], model=[gf, gn]))
     return viol, mism, stats
 
 
